@@ -67,6 +67,8 @@ typedef std::function<void(const std::vector<uint8_t>&)> Emit;
 void enumerate(const Emit& emit, const std::string& tier);   // may be empty
 extern const char* RULE;                    // evidence "rule" text
 void harness_init();                        // once per process (may be empty)
+void regressions();                         // plain regression checks of fixed findings, written directly against the API
+                                            // (no generator, no decoder): throw Fail if a repaired defect is back
 
 namespace hs {
 struct Stats {
@@ -219,6 +221,13 @@ int main(int argc, char** argv) {
   std::string mode = argv[1];
   load_known();
   harness_init();
+  if (mode == "regress") {
+    try { in_fresh_thread([] { regressions(); }); }
+    catch (const Fail& f) { printf("REGRESS fail signature=%s\nmessage=%s\n", f.sig.c_str(), f.msg.c_str()); return 3; }
+    catch (const std::exception& e) { printf("REGRESS fail signature=%s|regression|unexpected-exception\nmessage=%s\n", PROPERTY, e.what()); return 3; }
+    printf("REGRESS ok\n");
+    return 0;
+  }
   if (mode == "replay") {
     if (argc < 3) return 2;
     std::vector<uint8_t> b = read_case_file(argv[2]);
